@@ -29,3 +29,5 @@ SPEC = dict(contracts=['nd.h', 'dv.h', 'c01_append.h', 'c01_read.h', 'c01_extent
                          ['back end of the DataArray (dataExtent getter/setter, setData) is a ghost record of what it was asked to do'],
             assumptions=['kernel only: appendData\'s extent/offset arithmetic and its rejection conditions; quick tier ranks 0..4 (the property quantifies over ranks 1..4), thorough tier 0..32',
                          'NOT covered: what HDF5 stores and returns, type mapping, chunking, compression, strings, reopen, and the value of the calibration polynomial (symbolic double products do not terminate in CBMC)'])
+
+SPEC['assumptions'] = list(SPEC.get('assumptions', [])) + ['session 3: hdf5::DataSet::setExtent - the data space (rank / extent) and H5Dset_extent are ghosts; NDSize::nelms is an arbitrary value (not used by the pinned code)']
